@@ -680,8 +680,8 @@ func init() {
 	for _, n := range []string{"(*go/types.Tuple).Len", "(*go/types.Named).NumMethods", "(*go/types.Struct).NumFields", "(*go/types.TypeParamList).Len"} {
 		n := n
 		reg(n, "deterministic observer, result >= 0 (a nil *Tuple has Len 0)", func(fv *FuncVerifier, st *State, env *Env, c *CallCtx) []Term {
-			r := fv.uf("ext_"+sanitize(n), SInt, "", c.recv)
-			st.Assume(Le(IntLit(0), r))
+			f := "ext_" + sanitize(n)
+			r := fv.uf(f, SInt, fmt.Sprintf("(assert (forall ((t$ Ref)) (! (<= 0 (%s t$)) :pattern ((%s t$)))))\n", f, f), c.recv)
 			return []Term{r}
 		})
 	}
@@ -690,10 +690,11 @@ func init() {
 		lenName := map[string]string{"(*go/types.Tuple).At": "(*go/types.Tuple).Len", "(*go/types.Named).Method": "(*go/types.Named).NumMethods",
 			"(*go/types.Struct).Field": "(*go/types.Struct).NumFields", "(*go/types.TypeParamList).At": "(*go/types.TypeParamList).Len"}[n]
 		reg(n, "requires 0 <= i < Len (panics otherwise); deterministic observer, non-nil result", func(fv *FuncVerifier, st *State, env *Env, c *CallCtx) []Term {
-			ln := fv.uf("ext_"+sanitize(lenName), SInt, "", c.recv)
+			lf := "ext_" + sanitize(lenName)
+			ln := fv.uf(lf, SInt, fmt.Sprintf("(assert (forall ((t$ Ref)) (! (<= 0 (%s t$)) :pattern ((%s t$)))))\n", lf, lf), c.recv)
 			fv.oblige(st, env, "S", "extern-requires", And(Le(IntLit(0), c.args[0]), Lt(c.args[0], ln)), c.call.Lparen, n+": index within [0, Len)")
-			r := fv.uf("ext_"+sanitize(n), SRef, "", c.recv, c.args[0])
-			st.Assume(Not(eqT(r, Null)))
+			f := "ext_" + sanitize(n)
+			r := fv.uf(f, SRef, fmt.Sprintf("(assert (forall ((t$ Ref) (i$ Int)) (! (=> (and (<= 0 i$) (< i$ (%s t$))) (not (= (%s t$ i$) null))) :pattern ((%s t$ i$)))))\n", lf, f, f), c.recv, c.args[0])
 			return []Term{r}
 		})
 	}
